@@ -33,7 +33,7 @@ SERVICE_TYPES = ["dns-client", "dns-server", "database-service", "web-server", "
                  "ntp-server", "terminal"]
 APP_TYPES = ["database-client", "web-browser", "data-manipulation-bot", "ransomware-script", "dos-bot", "c2-beacon",
              "c2-server", "nmap"]
-SYS_SERVICE_TYPES = ["icmp", "arp"]
+SYS_SERVICE_TYPES = ["icmp", "arp", "user-manager", "user-session-manager"]
 # system software of HostNode (installed by the node type itself): never listed again in the scenario except in `dup`
 HOST_SYSTEM = {"dns-client", "ntp-client", "web-browser", "nmap", "terminal", "user-manager", "user-session-manager", "arp",
                "icmp"}
@@ -76,7 +76,8 @@ def scenario(services=(), apps=(), power=(0, 0), listener=None, third=False, app
     """peer P -- sw1 -- T (node under test) [-- S (servers for T's clients)]"""
     n = corpus.Net()
     z = dict(start_up_duration=0, shut_down_duration=0)
-    n.switch("sw1", 4, **z)
+    if third:
+        n.switch("sw1", 4, **z)
     n.host("peer", PIP, **z, dns_server=TIP, services=[{"type": "ftp-client"}],
            applications=[{"type": "database-client", "options": {"db_server_ip": TIP}},
                          {"type": "c2-beacon", "options": {"c2_server_ip_address": TIP}}])
@@ -88,8 +89,11 @@ def scenario(services=(), apps=(), power=(0, 0), listener=None, third=False, app
            services=[sw_cfg(s) for s in services], applications=t_apps)
     if n.node(HOST)["dns_server"] is None:
         del n.node(HOST)["dns_server"]
-    n.to_switch("sw1", "peer")
-    n.to_switch("sw1", HOST)
+    if not third:
+        n.link("peer", 1, HOST, 1)  # two hosts back to back (a switch only adds build time)
+    else:
+        n.to_switch("sw1", "peer")
+        n.to_switch("sw1", HOST)
     if third:
         n.host("S", SIP, kind="server", **z,
                services=[{"type": "database-service"}, {"type": "web-server"}, {"type": "ftp-server"}, {"type": "ntp-server"},
@@ -357,8 +361,9 @@ class Monitor:
             from primaite.simulator.network.protocols.masquerade import C2Packet
             from primaite.simulator.system.applications.red_applications.c2.abstract_c2 import C2Payload
 
+            # an INPUT packet whose command the beacon does not know: the beacon answers it with a failure OUTPUT
             return bool(self.raw(C2Packet(masquerade_protocol="tcp", masquerade_port=80, keep_alive_frequency=5,
-                                          payload_type=C2Payload.KEEP_ALIVE), 80))
+                                          payload_type=C2Payload.INPUT, command=None), 80))
         raise ValueError(target)
 
     # ---- one event
@@ -539,10 +544,10 @@ class Monitor:
             timed = L.TIMED[kind]
             mechn = "restart" if kind == L.SERVICE else "install"
             if verb == "tick" and ref.state == R and real == timed:
-                self.v(f"timing/{mechn}/late-or-never", f"{name}: {mechn} requested with duration {self.dur_of(obj, kind)} not complete on tick "
+                self.v(f"timing/{mechn}/late-or-never/{name}", f"{name}: {mechn} requested with duration {self.dur_of(obj, kind)} not complete on tick "
                        f"k={self.timing[kind].k(self.dur_of(obj, kind))} after the request (calibrated offset {self.timing[kind].offset}); events {self.log}")
             elif verb == "tick" and ref.state == timed and real == R:
-                self.v(f"timing/{mechn}/early", f"{name}: {mechn} with duration {self.dur_of(obj, kind)} complete after {ref.elapsed} tick(s), expected "
+                self.v(f"timing/{mechn}/early/{name}", f"{name}: {mechn} with duration {self.dur_of(obj, kind)} complete after {ref.elapsed} tick(s), expected "
                        f"k={ref.due} (calibrated offset {self.timing[kind].offset}); events {self.log}")
             else:
                 self.v(f"state-mismatch/{kind}/{verb}/{ref.state}-expected-{real}-observed", f"{name} is {real} after {self.log[-1]}, "
@@ -583,6 +588,10 @@ class Monitor:
                 who = [s.name + ":" + s.operating_state.name for s in inst if int(s.port) == int(p)]
                 self.v("port-open-without-running-software/get_open_ports", f"get_open_ports() lists {int(p)} after {self.log[-1]} but no RUNNING "
                        f"software on T owns or listens on it (software with that port: {who})")
+        opened = {int(p) for p in sm.get_open_ports()}
+        for s in sm.software.values():
+            if s.operating_state.name == R and int(s.port) != 0 and int(s.port) not in opened and self.T.operating_state.name == "ON":
+                self.cov.hit("diag_running_software_port_not_open", s.name)  # not in the statement: shadowed (port, protocol) key
         for s in sm.software.values():
             if s.operating_state.name != R and int(s.port) != 0:
                 self.cov.inc("nonrunning_port_evals")
@@ -741,22 +750,27 @@ def target_scenario(t, listener=False, power=(0, 0)):
 
 MULTI_SERVICES = ["dns-server", "database-service", "web-server", "ftp-server", "ntp-server"]
 MULTI_APPS = ["data-manipulation-bot", "ransomware-script", "c2-beacon"]
-MULTI_INSTALLABLE = ["data-manipulation-bot", "ransomware-script", "c2-beacon", "c2-server", "nmap"]
+# install/uninstall targets of the random family: applications that share their port with nothing else on that host (port-sharing
+# has its own family `shared`) and whose own family does not already exhibit a known finding that would cut the random words short
+MULTI_INSTALLABLE = ["ransomware-script", "c2-beacon", "c2-server", "nmap"]
+MULTI_PAYLOAD_TARGETS = ["dns-server", "database-service", "web-server", "ftp-server", "ntp-server", "terminal"]
 
 
 class Check:
     pid = "C13"
     level = "exploration"
-    rule = ("case families on a 2-3 host network (peer P, node under test T): svc-<type>: every word of length DEPTH over {start, stop, "
+    rule = ("case families on a 2-3 host network (peer P, node under test T): svc-<type>: every word of length DEPTH (quick 3, thorough 4) over {start, stop, "
             "pause, resume, restart, disable, enable, fix, scan, tick, node-shutdown, node-startup, inbound payload from P's matching "
-            "client} for each of the 9 shipped service types x restart_duration in {0,1,2,3} (durations other than 1: words containing "
+            "client} for each of the 9 shipped service types x restart_duration in {0,1,2,3} (durations other than 1: length-3 words containing "
             "restart), requests alternately raw / formed by the node-service-* action classes, followed by a drain of ticks; app-<type>: "
             "same over {run, close, fix, scan, execute, install, uninstall, tick, shutdown, startup, payload} for the 8 application types x "
-            "install_duration in {0,1,2,3}; gate-<type>: length-2 words with a payload offered after every event while another running "
-            "application on T listens on the target's port (so frames reach the target's receive); sys-<icmp|arp>; conn-*: uninstall / "
+            "install_duration in {0,1,2,3}; gate-<type>: length-2 (thorough 3) words with a payload offered after every event while another running "
+            "application on T listens on the target's port (so frames reach the target's receive); sys-<icmp|arp|user-manager|user-session-manager>: the same for the system services (no listener); conn-*: uninstall / "
             "re-install with open connections (db client, terminal sessions, dos-bot); dup-*: system software listed again in the scenario; "
             "shared-*: install/uninstall of an application whose port another installed software uses; multi-rand-*: random words of length "
-            "30 over all software of a host with 5 services + 3 applications + system software, random durations and node power durations. "
+            "30 over all software of a host with 5 services + 3 applications + system software, random restart/install durations in {0..3} and "
+            "node power durations in {(0,0),(1,1),(2,1)} (install/uninstall targets and payload targets of this family exclude software whose "
+            "own family already exhibits a finding, so that the random words are not cut short). "
             "Non-trivial word: >=1 operating-state write on T and >=2 distinct (software,state) pairs observed; distinct by (family, target, "
             "durations, word).")
     assumptions = [
@@ -770,10 +784,10 @@ class Check:
         "a port is 'open without running software' only if no RUNNING software on the node owns or listens on that port number; port 0 is not a port",
         "handled payload = receive() returned a true value or sent a payload from inside receive() while the software was not RUNNING at entry",
     ]
-    min_monitor = {"fsm_compares": 100000, "state_writes": 20000, "requests_judged": 10000, "payload_ops_while_nonrunning": 2000,
-                   "receive_calls_on_nonrunning": 300, "registry_checks": 20000, "describe_state_checks": 2000, "installs": 500,
-                   "uninstalls": 500, "timer_completions_on_expected_tick": 1000, "open_port_checks": 20000}
-    case_timeout = {"quick": 900, "thorough": 3600}
+    min_monitor = {"fsm_compares": 400000, "state_writes": 20000, "requests_judged": 15000, "payload_ops_while_nonrunning": 1000,
+                   "receive_calls_on_nonrunning": 200, "registry_checks": 30000, "describe_state_checks": 10000, "installs": 200,
+                   "uninstalls": 500, "timer_completions_on_expected_tick": 1500, "open_port_checks": 30000, "nonrunning_port_evals": 20000}
+    case_timeout = {"quick": 1500, "thorough": 5400}
 
     # ---- case generation
     def cases(self, tier, seed):
@@ -822,7 +836,8 @@ class Check:
             sc = target_scenario(t)
             i = 0
             for d in (base_d, 0, 3, 2 if fam == "svc" else 1):
-                for tail in itertools.product(alpha, repeat=spec["depth"] - 1):
+                depth = spec["depth"] if d == base_d else 3
+                for tail in itertools.product(alpha, repeat=depth - 1):
                     evs = [alpha[spec["first"]]] + list(tail)
                     if d != base_d and timed_verb not in evs:
                         continue
@@ -867,12 +882,17 @@ class Check:
                     elif x < 0.30:
                         word.append((rnd.choice(["shutdown", "startup"]), None))
                     elif x < 0.65:
-                        word.append((rnd.choice([e for e in SVC_EVENTS if e not in NODE_EVENTS]), rnd.choice(svc_t)))
+                        ev, tt = rnd.choice([e for e in SVC_EVENTS if e not in NODE_EVENTS]), rnd.choice(svc_t)
+                        if ev == "payload" and tt not in MULTI_PAYLOAD_TARGETS:
+                            tt = rnd.choice(MULTI_PAYLOAD_TARGETS)
+                        word.append((ev, tt))
                     else:
                         tt = rnd.choice(app_t)
                         ev = rnd.choice([e for e in APP_EVENTS if e not in NODE_EVENTS])
                         if ev in ("install", "uninstall") and tt not in MULTI_INSTALLABLE:
                             ev = "close"
+                        if ev == "payload":
+                            ev = "scan"
                         word.append((ev, tt))
                 via = rnd.choice(["action", "request"])
                 mon = run_word(sc, word, cov, out, {"family": fam, "seed": spec["seed"], "k": k, "power": power, "restart_d": rd,
@@ -891,7 +911,7 @@ class Check:
                 ctx = {"family": "conn", "which": which, "install_d": d, "via": via}
                 if which in ("dbclient", "dosbot"):
                     app = "database-client" if which == "dbclient" else "dos-bot"
-                    sc = scenario(services=[], apps=[app], third=True, app_opts={"dos-bot": {"target_ip_address": SIP, "max_sessions": 3}})
+                    sc = scenario(services=[], apps=[app], third=True, app_opts={"dos-bot": {"target_ip_address": SIP, "max_sessions": 3, "port_scan_p_of_success": 1.0}})
                     for nconn in (0, 1, 3):
                         def word(mon_box, nconn=nconn, app=app):
                             yield ("tick", None)
